@@ -19,10 +19,11 @@ const (
 	ErrAfter             // J bytes are transferred, then the call returns (J, ErrInjected)
 	PeerClose            // the peer end is closed by the environment just before the call
 	LocalClose           // this end is closed by the environment just before the call
+	ErrOnce              // the call returns (0, ErrInjected) once; the transport stays usable (writes only)
 )
 
 func (k FaultKind) String() string {
-	return [...]string{"none", "err", "err-after", "peer-close", "local-close"}[k]
+	return [...]string{"none", "err", "err-after", "peer-close", "local-close", "err-once"}[k]
 }
 
 // Fault arms one fault at the K-th (0-based) Read or Write call of an end.
@@ -81,6 +82,7 @@ type End struct {
 	fault     *Fault
 	faultDone bool
 	Faulted   bool
+	Transient bool // an ErrOnce fault struck (the transport is still usable)
 	stalled   bool
 	// StallAt makes the StallAt-th (0-based) and later Writes park until Release (<0: never).
 	StallAt int
@@ -242,6 +244,12 @@ func (e *End) Write(p []byte) (n int, err error) {
 				e.kill()
 				err = ErrInjected
 				return
+			case ErrOnce:
+				if !e.closed && !e.p.dead && !e.wr.rclosed {
+					e.Transient = true
+					err = ErrInjected
+					return
+				}
 			case PeerClose:
 				e.peer.envClose()
 			case LocalClose:
